@@ -204,6 +204,20 @@ def gen_case(seed, profile_weights, tier, tol_lo=None):
                'ics': [[ren[v], t_] for v, t_ in pre['ics']], 'exo': [[ren[v], t_] for v, t_ in pre['exo']],
                'maxtime': pre['maxtime'], 'err_tol': pre['err_tol']}
         knobs['prelude'] = pre
+    if profile in ('contractive', 'contractive_plain') and S['swarm'].random() < 0.08:
+        # the optional initial steady-state search runs before period 1 (k=0 values come from it)
+        knobs['steady'] = {'T': S['swarm'].choice([10, 30]), 'tol': 1e-3, 'excluded': ['t']}
+    if knobs.get('prelude') is not None and S['swarm'].random() < 0.4:
+        # the previous block used the SAME variable names with other right-hand sides
+        import re as _re
+        pre = knobs['prelude']
+        unren = lambda t_: _re.sub(r'pre_', '', t_)
+        names_now = set(eqn.block_vars(block))
+        cand = {'eqs': [[unren(v), unren(r_)] for v, r_ in pre['eqs']], 'lags': [[unren(l), unren(s_), st] for l, s_, st in pre['lags']],
+                'ics': [[unren(v), t_] for v, t_ in pre['ics']], 'exo': [[unren(v), t_] for v, t_ in pre['exo']],
+                'maxtime': pre['maxtime'], 'err_tol': pre['err_tol']}
+        if set(eqn.block_vars(cand)) & names_now:
+            knobs['prelude'] = cand
     if profile == 'chaos':
         where = S['faults'].random()
         kinds = list(CHAOS_KINDS)
